@@ -81,6 +81,8 @@ def gen_ds(rng, npar=None, allow_short=True):
                 c = 'nan' if r < 0.15 else 'inf' if r < 0.2 else '-inf' if r < 0.23 else counter[0]
             cells.append(c)
         v['shape'] = shape; v['cells'] = cells
+        # stored dtype of the variable: nullness must be judged the same for every dtype that can hold NaN / inf
+        v['dtype'] = rng.choice(['float', 'float', 'float', 'complex', 'float32'])
     return {'dims': dims, 'internal': internal, 'vars': vs}
 
 
@@ -96,6 +98,12 @@ def build(dsd):
     data = {}
     for v in dsd['vars']:
         arr = np.array([TOK[c] if isinstance(c, str) else float(c) for c in v['cells']], dtype=float).reshape(v['shape'])
+        dt = v.get('dtype', 'float')
+        if dt == 'complex':
+            arr = arr.astype(complex)
+            arr = np.where(np.isfinite(arr), arr + 0.5j, arr)        # finite entries get an imaginary part, null ones stay null
+        elif dt == 'float32':
+            arr = arr.astype('float32')
         data[v['name']] = (tuple(v['dims']), arr)
     return xr.Dataset(data, coords=coords)
 
@@ -248,6 +256,7 @@ def cases(ctx):
         ctx.count('n_param_dims', len(c['ds']['dims'])); ctx.count('n_vars', len(c['ds']['vars']))
         ctx.count('internal_dims', len(c['ds']['internal']))
         ctx.count('label_kinds', '+'.join(sorted({d['kind'] for d in c['ds']['dims']})))
+        for v in c['ds']['vars']: ctx.count('var_dtype', v.get('dtype', 'float'))
     return out
 
 
@@ -403,7 +412,8 @@ def _numpy_missing(ds, fn_args, method, rmaps):
         miss = True
         for v in ds.data_vars.values():
             sel = tuple(idx[fn_args.index(dn)] if dn in fn_args else slice(None) for dn in v.dims)
-            sub = np.asarray(v.values[sel], dtype=float)
+            sub = np.asarray(v.values[sel])
+            if sub.dtype.kind not in 'fc': sub = sub.astype(float)
             bad = np.isnan(sub) if method == 'isnull' else ~np.isfinite(sub)
             if not bad.all(): miss = False; break
         if miss:
